@@ -13,6 +13,7 @@ Actions (plain and generator handlers):
   ['raise'] / ['raise','base'] raise Boom(Exception) / BoomBase(BaseException)
   ['ret', tag]                return a unique non-None value (ends the body)
   ['retfire', evspec]         return self.fire(event): the Value of a nested event (ends the body)
+  ['refire_same', prio|None]  self.fire(<the event being handled>) again, optionally with a priority
   ['firechild', suffix]       self.fire(event.child(suffix)): an event named <name>_<suffix> derived from the one being handled
   ['retnone']                 return None
   ['retlit', v] / ['yieldlit', v]  return / yield the literal v (falsy but non-None values: 0, False, '', 0.0)
@@ -102,6 +103,17 @@ class World:
         return len(self.log) - 1
 
     def _probe(self, event, args, kwargs):
+        nx = getattr(event, '_vnext', None)
+        if getattr(event, '_vuid', None) is not None:
+            # the same event OBJECT was fired again by one of its own handlers.  A '*' handler is invoked once per channel of a dispatch:
+            # after as many probe calls as the firing had channels, the next call belongs to the dispatch of the later firing
+            cur = getattr(event, '_vuid', None)
+            n = max(1, len(self.events[cur]['spec'].get('channels', ()))) if cur in self.events else 1
+            seen = event.__dict__.get('_vseen', 0)
+            if seen >= n and nx:
+                event._vuid = nx.pop(0)
+                seen = 0
+            event.__dict__['_vseen'] = seen + 1
         uid = getattr(event, '_vuid', None)
         if uid is not None and not self.events[uid].get('system'):
             if self.log and self.log[-1] == ('D', uid):
@@ -238,6 +250,23 @@ class World:
             tag = 'v%d.%d.%s' % (uid, hid, act[1])
             self.L('P', uid, hid, tag)
             return ('ret', tag)
+        elif k == 'refire_same':
+            # hand the event being handled on: fire the SAME object again (a forwarding pattern).  Its later dispatch gets a ghost identity
+            # of its own, taken up by the probe when that dispatch begins; handlers of the current dispatch keep logging under the old one
+            if self.nuid >= self.prog.get('max_events', 600):
+                return None
+            self.nuid += 1
+            nu = self.nuid
+            old = self.events[uid]
+            prio = act[1] if len(act) > 1 and act[1] is not None else 0
+            self.events[nu] = dict(old, prio=prio, parent=uid, by=hid, dispatched=0, cancelled=False, refire_of=uid, flush_depth_at_fire=self.flush_depth)
+            self.objs[nu] = event
+            event.__dict__.setdefault('_vnext', []).append(nu)
+            self.events[nu]['fired_at'] = self.L('F', nu, uid, hid, prio)
+            kw = {'priority': prio} if prio != 0 else {}
+            comp.fire(event, *old['spec'].get('channels', ()), **kw)
+            self.L('FR', nu)
+            fired.append(nu)
         elif k == 'firechild':
             # self.fire(event.child('<suffix>')): an event derived from the one being handled (as circuits.web does with its request events)
             if self.nuid >= self.prog.get('max_events', 600):
